@@ -1,5 +1,10 @@
 PROPS = ["CTV.Props.C14"]
-HARNESS = [dict(pkg="./trillian/ctfe/", test="TestVerifC14", race=True, timeout=1500)]
+HARNESS = [dict(pkg="./trillian/ctfe/", test="TestVerifC14", race=True, timeout=1500),
+           # one oversized chain (certificate_chain body above 2^24-1 bytes) through the real add-chain of both modes
+           dict(pkg="./trillian/ctfe/", test="TestVerifC14Oversized", model=False),
+           # the storage contract the model assumes, on the real SQL storages against a scripted database (no trace for the model)
+           dict(pkg="./trillian/ctfe/storage/mysql/", test="TestVerifC14", model=False),
+           dict(pkg="./trillian/ctfe/storage/postgresql/", test="TestVerifC14", model=False)]
 RULE = ("two logInfos (in-backend service; newIndirectIssuanceChainService(memStore, cache)) per cache configuration (noop; real LRU with size 0/1/2/1000 x TTL 1ms/1h) "
         "fed the same submissions: generated PKI chains with 0..4 intermediates, both entry types, root included or not, the root itself (leaf-only path), "
         "synthetic certificates of boundary lengths (1,2,127,128,255,256,257,65535,65536, a 300 kB certificate once per thorough run) through the services' BuildLogLeaf, "
